@@ -131,12 +131,34 @@ void ir_memmove(uint64_t d, uint64_t s, uint64_t n)
 {
     if (n == 0 || d == s) return;
     if (d < s || d >= s + n) {
-        for (uint64_t i = 0; i < n; ++i) st8(d + i, ld8(s + i, 15), 7);
+        uint64_t i = 0;
+        for (; i + 8 <= n; i += 8) stn(d + i, ldn(s + i, 15, 8), 7, 8);
+        for (; i < n; ++i) stn(d + i, ldn(s + i, 15, 1), 7, 1);
     } else {
-        for (uint64_t i = n; i > 0; --i) st8(d + i - 1, ld8(s + i - 1, 15), 7);
+        uint64_t i = n;
+        for (; i >= 8; i -= 8) stn(d + i - 8, ldn(s + i - 8, 15, 8), 7, 8);
+        for (; i > 0; --i) stn(d + i - 1, ldn(s + i - 1, 15, 1), 7, 1);
     }
 }
 
+#ifdef IR_MEMSET_SWEEP
+/* bytes [lo, lo+n) of the word array A := v, as one pass over ALL words with constant indices: cost is fixed by the
+ * array size, independent of n, and needs no unwinding bound (preferable when n is symbolic and large) */
+#define memset_words(A, lo, n, v) memset_sweep(A, (A == HEAP ? HEAP_SIZE : A == STK ? STK_SIZE : GLB_SIZE) / 8, lo, n, v)
+static void memset_sweep(uint64_t* A, uint64_t words, uint64_t lo, uint64_t n, uint8_t v)
+{
+    uint64_t hi = lo + n, pat = UINT64_C(0x0101010101010101) * v;
+    for (uint64_t w = 0; w < words; ++w) {
+        uint64_t wlo = w << 3;
+        if (hi > wlo && lo < wlo + 8) {
+            uint64_t mk = ~UINT64_C(0);
+            if (lo > wlo) mk &= ~UINT64_C(0) << ((lo - wlo) * 8);
+            if (hi < wlo + 8) mk &= ~UINT64_C(0) >> ((wlo + 8 - hi) * 8);
+            A[w] = (A[w] & ~mk) | (pat & mk);
+        }
+    }
+}
+#else
 static void memset_words(uint64_t* A, uint64_t lo, uint64_t n, uint8_t v)
 {   /* bytes [lo, lo+n) of the word array A := v ; one read-modify-write per touched word */
     uint64_t hi = lo + n, pat = UINT64_C(0x0101010101010101) * v;
@@ -147,6 +169,7 @@ static void memset_words(uint64_t* A, uint64_t lo, uint64_t n, uint8_t v)
         A[w] = (A[w] & ~mk) | (pat & mk);
     }
 }
+#endif
 void ir_memset(uint64_t d, uint8_t v, uint64_t n)
 {
     if (n == 0) return;
@@ -261,6 +284,12 @@ void X___cxa_throw(uint64_t obj, uint64_t ti, uint64_t dtor)
     EXC = 1; EXC_OBJ = obj; EXC_TYPE = ir_ti_id(ti);
 }
 uint64_t X___cxa_begin_catch(uint64_t obj) { return obj; }
+void X__ZNSt9bad_allocD2Ev(uint64_t o) { (void)o; }
+void X__ZNSt9exceptionD2Ev(uint64_t o) { (void)o; }
+#ifndef IR_HOOK_NEW_DELETE
+void X__ZdlPv(uint64_t p) { (void)p; }          /* only reached from deleting destructors of exception objects */
+void X__ZdlPvm(uint64_t p, uint64_t n) { (void)p; (void)n; }
+#endif
 void X___cxa_rethrow(void) { EXC = 1; }
 uint64_t X_strlen(uint64_t s)
 {
